@@ -4,6 +4,10 @@ against; re-proved against the facts regenerated from /repo on every run). -/
 namespace Tally.Tie.C08Frozen
 open Tally
 
+theorem body_tally__NewRootScope_unchanged : Facts.body_tally__NewRootScope = ["func(opts ScopeOptions, interval time.Duration) (Scope, io.Closer)", "s := newRootScope(opts, interval)", "return s, s"] := rfl
+
+theorem body_tally__NewRootScopeWithDefaultInterval_unchanged : Facts.body_tally__NewRootScopeWithDefaultInterval = ["func(opts ScopeOptions) (Scope, io.Closer)", "return NewRootScope(opts, _defaultReportingInterval)"] := rfl
+
 theorem body_tally__newRootScope_unchanged : Facts.body_tally__newRootScope = ["func(opts ScopeOptions, interval time.Duration) *scope", "sanitizer := NewNoOpSanitizer()", "if o := opts.SanitizeOptions; o != nil { sanitizer = NewSanitizer(*o) }", "if opts.Tags == nil { opts.Tags = make(map[string]string) }", "if opts.Separator == \"\" { opts.Separator = DefaultSeparator }", "var baseReporter BaseStatsReporter", "if opts.Reporter != nil { baseReporter = opts.Reporter } else if opts.CachedReporter != nil { baseReporter = opts.CachedReporter }", "if opts.DefaultBuckets == nil || opts.DefaultBuckets.Len() < 1 { opts.DefaultBuckets = defaultScopeBuckets }", "s := &scope{ baseReporter: baseReporter, bucketCache: newBucketCache(), cachedReporter: opts.CachedReporter, counters: make(map[string]*counter), countersSlice: make([]*counter, 0, _defaultInitialSliceSize), defaultBuckets: opts.DefaultBuckets, done: make(chan struct{}), gauges: make(map[string]*gauge), gaugesSlice: make([]*gauge, 0, _defaultInitialSliceSize), histograms: make(map[string]*histogram), histogramsSlice: make([]*histogram, 0, _defaultInitialSliceSize), prefix: sanitizer.Name(opts.Prefix), reporter: opts.Reporter, sanitizer: sanitizer, separator: sanitizer.Name(opts.Separator), timers: make(map[string]*timer), root: true, testScope: opts.testScope, }", "s.tags = s.copyAndSanitizeMap(opts.Tags)", "s.registry = newScopeRegistryWithShardCount(s, opts.registryShardCount, opts.OmitCardinalityMetrics, opts.CardinalityMetricsTags)", "if interval > 0 { s.wg.Add(1) go func() { defer s.wg.Done() s.reportLoop(interval) }() }", "return s"] := rfl
 
 theorem body_tally_scope_Close_unchanged : Facts.body_tally_scope_Close = ["func() error", "if !s.closed.CAS(false, true) { return nil }", "verifhook.Yield(\"close.post-cas\")", "close(s.done)", "verifhook.Yield(\"close.post-done\")", "if s.root { s.wg.Wait() if s.reporter != nil { s.registry.Report(s.reporter) } else if s.cachedReporter != nil { s.registry.CachedReport() } if s.baseReporter != nil { s.registry.purge() s.baseReporter.Flush() } verifhook.Yield(\"close.pre-reporter-close\") if closer, ok := s.baseReporter.(io.Closer); ok { return closer.Close() } }", "return nil"] := rfl
